@@ -58,6 +58,9 @@ type Plan struct {
 	RootPath string      `json:"root"`
 	Mounts   []MountSpec `json:"mounts"`
 	Regs     []Reg       `json:"regs"`
+	// Early are resource names looked up on the root mux after every registration step
+	// (while everything is mounted), so that lookups interleave with registrations.
+	Early []string `json:"early,omitempty"`
 }
 
 type built struct {
@@ -67,6 +70,8 @@ type built struct {
 	regPanic  []bool
 	wantPanic []bool
 	hits      *[]int
+	// earlyLookups counts the interleaved lookups that were compared with the model.
+	earlyLookups int
 	// orphans: listeners remain on patterns without a handler; Serve would refuse such a mux
 	// (ValidateListeners), so lookups are outside the domain.
 	orphans bool
@@ -171,6 +176,18 @@ func build(pl Plan) (*built, error) {
 		}
 		return strings.Join(n, ",")
 	}
+	early := func() error {
+		if len(pl.Early) == 0 || len(lateDone) != len(late) || len(pendingListeners) > 0 {
+			return nil
+		}
+		for _, name := range pl.Early {
+			if msg, _ := checkLookup(b, pl, name); msg != "" {
+				return fmt.Errorf("after %d registrations: %s", len(b.regPanic), msg)
+			}
+			b.earlyLookups++
+		}
+		return nil
+	}
 	for _, r := range pl.Regs {
 		rel := strings.Join(r.Full[prefixLen[r.At]:], ".")
 		full := fullPattern(pl.RootPath, r.Full)
@@ -206,6 +223,9 @@ func build(pl Plan) (*built, error) {
 				if !attached {
 					pendingListeners[sk] = append(pendingListeners[sk], id)
 				}
+			}
+			if err := early(); err != nil {
+				return b, err
 			}
 			continue
 		}
@@ -274,6 +294,9 @@ func build(pl Plan) (*built, error) {
 			lids = append(lids, pendingListeners[sk]...)
 			delete(pendingListeners, sk)
 			b.entries = append(b.entries, refmux.Entry{Pattern: full, Marker: marker, Group: r.Group, Parallel: r.Parallel, Listeners: lids})
+		}
+		if err := early(); err != nil {
+			return b, err
 		}
 	}
 	for mi := range pl.Mounts {
@@ -901,10 +924,15 @@ func genNameFrom(pl Plan) *rapid.Generator[string] {
 func TestPropRouting(t *testing.T) {
 	rapid.Check(t, func(t *rapid.T) {
 		pl := genPlan().Draw(t, "plan")
+		if rapid.Bool().Draw(t, "interleave") {
+			pl.Early = rapid.SliceOfN(genNameFrom(pl), 1, 3).Draw(t, "early")
+		}
 		b, err := build(pl)
 		if err != nil {
-			t.Fatalf("%v", err)
+			pj, _ := json.Marshal(pl)
+			t.Fatalf("%v\nplan: %s", err, pj)
 		}
+		ev.Add("interleaved-lookups", int64(b.earlyLookups))
 		nn := rapid.IntRange(1, 8).Draw(t, "nnames")
 		if b.orphans {
 			nn = 0
